@@ -66,6 +66,7 @@ PLANS = {
             S("c05_seq", 1500, 60000),
             S("c05_conc", 800, 30000),
             S("c05_noblock", 200, 6000),
+            S("c05_edit", 600, 20000),     # several contexts get the same publication and every receiver edits its own message (scenarios/c05b_edit.cc)
         ],
         "assumptions": ["sequential mode relies on sim_quiesce to make 'arrival' a definite point"],
     },
